@@ -286,6 +286,14 @@ func (q *chunkQueue) RetryAll() {
 	q.Lock()
 	defer q.Unlock()
 	q.chunkReturned = make(map[uint32]bool)
+	// Requests that were outstanding when the fetchers of the previous attempt
+	// were stopped will never be answered for: release their allocation so that
+	// the chunks are requested again.
+	for index := range q.chunkAllocated {
+		if q.chunkFiles[index] == "" {
+			delete(q.chunkAllocated, index)
+		}
+	}
 }
 
 // Size returns the total number of chunks for the snapshot and queue, or 0 when closed.
